@@ -34,9 +34,10 @@ ASSUMPTIONS = [
     "degree-2n entry must deviate by >= half of its reference value (>= 0.039*|xu-xl| for n <= 250)",
     "abscissae: sorted spy log equals the mapped scipy nodes within 200*eps*max(|xl|,|xu|) (largest seen 1.02*eps*max|x|); the first call is "
     "the dtype-probing call at xl and is not an abscissa",
-    "polynomials: degree <= 9, coefficients k/8 with |k| <= 24, exact integral by rational arithmetic; tolerance 2000*eps*|L|*sum|c_k|X^k",
+    "polynomials: degree <= 9, coefficients k/8 with |k| <= 24, exact integral by rational arithmetic; tolerance 5000*eps*|L|*sum|c_k|X^k (largest seen 21)",
     "smooth integrands (cos, sin, exp(-x), 1/(1+x^2)): |xu-xl| <= 2, |x| <= 10, n >= 24 so that the Gauss truncation error is < 1e-18",
-    "infinite ranges (float64 only): relative tolerance 1e-8 for n=100 (largest seen 3e-11), 1e-11 for n >= 200 (largest seen 2e-14)",
+    "infinite ranges (float64 only): error relative to max(|integral|, integral over the whole line) <= 1e-7 for n=100 (largest seen 4.5e-10), "
+    "<= 1e-11 for n >= 200 (largest seen 5.4e-14); the mutations tried miss by >= 2e-4; tail integrals below 1e-3 of the whole are not counted non-trivial",
     "with python-number limits and an integrand made of python arithmetic only, the result has torch's default dtype (float32); tolerances "
     "use eps of the returned dtype and the endpoints of such cases are float32-representable",
 ]
@@ -53,7 +54,7 @@ REQUIRED_COUNTERS = {
 
 NS = [1, 2, 3, 5, 8, 16, 33, 64, 100, 150, 250]
 FORMS = ["num", "t0", "t1", "num_t0", "t0_num", "num_t1", "t1_num", "t0_t1"]
-CTOL = 2000.0
+CTOL = 5000.0
 INF = float("inf")
 
 
@@ -506,11 +507,15 @@ def run_inf(desc, obs):
         return
     if not obs.check(isinstance(y, torch.Tensor) and y.numel() == 1 and y.dtype == dt, "inf:shape:" + key, "result is %r" % (y,)):
         return
-    rtol = 1e-8 if n < 200 else 1e-11
-    e = abs(float(y) - ex) / abs(ex)
-    obs.check(e <= rtol, "inf:value:" + key, "quad gives %.15g, closed form %.15g (relative error %.2e, allowed %.0e for n=%d)" %
-              (float(y), ex, e, rtol, n), s=s, mu=mu, a=a)
-    obs.note(n=n, rel_err=e)
+    rtol = 1e-7 if n < 200 else 1e-11
+    # relative to the integral over the whole support (a tail integral can be arbitrarily small next to the integrand's scale)
+    full = abs(Fp - Fm) if Fm is not None else abs(ex)
+    e = abs(float(y) - ex) / max(abs(ex), full)
+    obs.check(e <= rtol, "inf:value:" + key, "quad gives %.15g, closed form %.15g (error relative to the full-range integral %.2e, allowed %.0e "
+              "for n=%d)" % (float(y), ex, e, rtol, n), s=s, mu=mu, a=a)
+    if abs(ex) < 1e-3 * full:
+        obs.nontrivial = False
+    obs.note(**{"n": n, "rel_err_n100" if n < 200 else "rel_err_n200plus": e})
 
 
 def run_tuple(desc, obs):
